@@ -469,3 +469,74 @@ def rot_congruence_allsizes():
             o["witness"]["native"] = dict(norb=n, nchol=g, max_abs_deviation=dev)
         out.append(o)
     return out
+
+
+def init_walkers_natorbs(norb=4, nu=3, nd=2):
+    """C13.init.natorbs: the first statements of get_init_walkers (extracted by AST) take the natural orbitals of spin s from eigh(rdm1[s]) - spin by spin -
+    keeping the n_s columns of largest occupation (eigh returns ascending eigenvalues: reversed order, first n_s), and the unrestricted branch returns
+    n_walkers copies of [natorbs_up, natorbs_dn].  eigh is a callee under its contract (returns the eigenvector matrix OF ITS ARGUMENT): the contract is applied
+    only after the argument has been identified as rdm1[0] or rdm1[1]; tagged eigenvector matrices."""
+    t0 = time.time()
+    q = "wavefunctions.wave_function.get_init_walkers"
+    fn, _ = front.get_function(q)
+    assigns = [n for n in fn.body if isinstance(n, ast.Assign) and isinstance(n.targets[0], ast.Name) and n.targets[0].id in ("natorbs_up", "natorbs_dn")]
+    top_if = next((n for n in fn.body if isinstance(n, ast.If) and ast.unparse(n.test) == "restricted"), None)
+    name = f"C13.init.natorbs[norb={norb},nel={nu}+{nd}]"
+    if len(assigns) != 2 or top_if is None or not top_if.orelse or not isinstance(top_if.orelse[0], ast.Return):
+        return [ob(name, UNDECIDED, kind="bounded", detail="natural-orbital statements / unrestricted return not found", functions=[q])]
+    A, B = np.zeros((norb, norb)), np.ones((norb, norb))
+    V = {id(A): 100.0 + np.arange(norb * norb, dtype=float).reshape(norb, norb), id(B): 500.0 + np.arange(norb * norb, dtype=float).reshape(norb, norb)}
+    calls = []
+
+    class _LA:
+        @staticmethod
+        def eigh(x):
+            if id(x) not in V:
+                raise Unsupported("eigh applied to something that is not rdm1[0] or rdm1[1]")
+            calls.append("up" if x is A else "dn")
+            return np.arange(norb, dtype=float), V[id(x)]
+
+    class _JNP:
+        linalg = _LA()
+        array = staticmethod(np.array)
+
+    class _Self:
+        nelec = (nu, nd)
+    nw = 2
+    ns = dict(jnp=_JNP(), np=np, self=_Self(), rdm1=[A, B], n_walkers=nw)
+    mod = ast.Module([__import__("copy").deepcopy(s_) for s_ in assigns], [])
+    ast.fix_missing_locations(mod)
+    try:
+        exec(compile(mod, "get_init_walkers", "exec"), ns)
+        ret = eval(compile(ast.Expression(__import__("copy").deepcopy(top_if.orelse[0].value)), "get_init_walkers", "eval"), ns)
+    except Unsupported as e:
+        return [ob(name, REFUTED, kind="bounded", backend="concrete-exec(tagged)", detail=str(e), functions=[q], replayed=None, witness_class="eigh-argument")]
+    bad = []
+    want = [V[id(A)][:, ::-1][:, :nu], V[id(B)][:, ::-1][:, :nd]]
+    if not np.array_equal(np.asarray(ns["natorbs_up"]), want[0]):
+        bad.append("natorbs_up is not the n_up leading natural orbitals of rdm1[0]")
+    if not np.array_equal(np.asarray(ns["natorbs_dn"]), want[1]):
+        bad.append("natorbs_dn is not the n_dn leading natural orbitals of rdm1[1]")
+    ok_ret = isinstance(ret, list) and len(ret) == 2 and all(np.asarray(ret[s_]).shape == (nw,) + want[s_].shape and all(np.array_equal(np.asarray(ret[s_])[k].real, want[s_]) for k in range(nw)) for s_ in range(2))
+    if not ok_ret:
+        bad.append("the unrestricted branch does not return n_walkers copies of [natorbs_up, natorbs_dn]")
+    o = ob(name, REFUTED if bad else DISCHARGED, kind="bounded", backend="concrete-exec(tagged)", functions=[q], wall=time.time() - t0,
+           detail=("; ".join(bad) if bad else f"natural orbitals of spin s come from eigh(rdm1[s]) (calls {calls}), n_s columns of largest occupation, {nw} copies per spin"),
+           witness=dict(mismatch=bad, eigh_calls=calls) if bad else None, witness_class="natural-orbitals" if bad else "")
+    if bad:
+        # native replay: a spin-broken uhf trial, unrestricted initial walkers must have |overlap| = 1 with the trial
+        try:
+            H.setup_repo()
+            import jax.numpy as jnp
+            from ad_afqmc import wavefunctions as wf
+            rng = np.random.default_rng(8)
+            C = [np.linalg.qr(rng.normal(size=(5, 5)))[0][:, :3], np.linalg.qr(rng.normal(size=(5, 5)))[0][:, :2]]
+            trial = wf.uhf(5, (3, 2))
+            wave = dict(mo_coeff=[jnp.asarray(C[0]), jnp.asarray(C[1])], rdm1=jnp.asarray(np.array([C[0] @ C[0].T, C[1] @ C[1].T])))
+            w = trial.get_init_walkers(wave, 2, restricted=False)
+            ov = np.asarray(trial.calc_overlap(w, wave))
+            o["replayed"] = bool(np.max(np.abs(np.abs(ov) - 1.0)) > 1e-8)
+            o["witness"]["native"] = dict(abs_overlap_of_initial_walkers_with_a_uhf_trial=np.abs(ov).tolist())
+        except Exception as e:   # noqa
+            o["witness"]["native_error"] = repr(e)[:300]
+    return [o]
